@@ -238,6 +238,15 @@ def run_case(case, drv):
     heavy = set(rng.sample(range(len(perms)), min(len(perms), 24 if thorough else 6)))
     for perm in ([perms[0]] + ([perms[len(perms) // 2]] if len(perms) > 1 else [])):
         lib_step_tie(rules, perm, spec["start"], drv, res)
+    # the ordering heuristics only permute the rules (what isEmptyLibO_perm quantifies over)
+    st0, base = outcome(lambda: sorted(map(tuple, all_rules(IndexedGrammar(Rules([mk_rule(r) for r in rules], 0), spec["start"])))))
+    for optim in range(1, 9):
+        st1, got_r = outcome(lambda: sorted(map(tuple, all_rules(IndexedGrammar(Rules([mk_rule(r) for r in rules], optim), spec["start"])))), limit=5.0)
+        res.evals += 1
+        if st0 == "ok" and (st1 != "ok" or got_r != base):
+            res.violation("Rules", "the ordering heuristic optim=%d does not return a permutation of the rules" % optim,
+                          detail={"optim": optim, "rules": rules, "ordered": got_r if st1 == "ok" else st1, "listed": base})
+            break
     for pi, perm in enumerate(perms):
         # the listed order is what optim 0 visits; the other heuristics are sampled
         for optim in (range(9) if pi in heavy else [0]):
